@@ -9,8 +9,8 @@ class Gen:
         self.r = rng
         self.size = size
         f = dict(phony=0.15, deps=0.5, restat=0.2, generator=0.05, pools=0.3, rsp=0.12, vals=0.2, multi=0.25,
-                 subdirs=0.5, dyndep=0.0, console=0.05, order_only=0.4, implicit=0.4, no_manifest_path=0.0,
-                 phony_file=0.0, msvc=0.2, depfile_only=0.25, chain=1.0)
+                 subdirs=0.5, console=0.05, order_only=0.4, implicit=0.4, no_manifest_path=0.0,
+                 phony_file=0.0, msvc=0.2, depfile_only=0.25, chain=1.0, dyndep=0.15)
         f.update(feat or {})
         self.f = f
 
@@ -125,10 +125,71 @@ class Gen:
                 earlier = [o for t in cmds if t is not s for o in t["outs"][:1]]
                 if earlier:
                     s["vals"].append(r.choice(earlier))
+        if self.p("dyndep"):
+            self.add_dyndep(sc)
         if r.random() < 0.3:
             roots = self.roots(sc)
             if roots:
                 sc["defaults"] = r.sample(roots, r.randint(1, len(roots)))
+        return sc
+
+    def add_dyndep(self, sc, static=False, on_rule=False, tag="d"):
+        """adds statements served by a dyndep file (produced by a scanner statement, or pre-existing): implicit inputs
+        (leaf headers, outputs of other statements, outputs provided by earlier served statements), implicit outputs, restat"""
+        from .simlib import dyndep_text
+        r = self.r
+        leafs = []
+        for i in range(r.randint(1, 3)):
+            sc["sources"]["m%d.h" % i] = "// leaf %d\n" % i
+            leafs.append("m%d.h" % i)
+        base_outs = [s["outs"][0] for s in sc["stmts"] if s["kind"] == "cmd"]
+        nserved = r.randint(1, 4)
+        dd = "dd/x.dd"
+        served, provided = [], []
+        for i in range(nserved):
+            src = "%s%d.src" % (tag, i)
+            out0 = "o/%s%d.o" % (tag, i)
+            lines = []
+            for h in leafs:
+                if r.random() < 0.5:
+                    lines.append("#include " + h)
+            for b in base_outs:
+                if r.random() < 0.3:
+                    lines.append("#include " + b)
+            for p in provided:
+                if r.random() < 0.5:
+                    lines.append("#include " + p)
+            if r.random() < 0.6:
+                mod = "o/%s%d.mod" % (tag, i)
+                lines.append("#provides " + mod)
+                provided.append(mod)
+            if r.random() < 0.25:
+                lines.append("#ddrestat")
+            sc["sources"][src] = "\n".join(lines + ["// dyndep-served source %d" % i]) + "\n"
+            st = St("%s%d" % (tag, i), [out0], ins=[src], dd=True, dyndep=dd, dyndep_on_rule=on_rule)
+            if r.random() < 0.5:
+                st["oins"] = [dd]
+            else:
+                st["iins"] = [dd]
+            st["ins"] += [b for b in base_outs if r.random() < 0.2]
+            for ln in lines:
+                if ln.startswith("#include ") and ln[9:] in base_outs and ln[9:] not in st["ins"] and r.random() < 0.4:
+                    st["oins"].append(ln[9:])
+            served.append(st)
+        scan = St("scan", [dd], ins=["%s%d.src" % (tag, i) for i in range(nserved)], kind="scan",
+                  serves=[[s["outs"][0], s["ins"][0]] for s in served])
+        if static:
+            sc["sources"][dd] = dyndep_text(scan, sc["sources"])
+            sc["static_dd"] = {dd: scan["serves"]}
+        else:
+            sc["stmts"].append(scan)
+        sc["stmts"] += served
+        for i, s in enumerate(served):
+            if r.random() < 0.5:
+                c = St("u%d" % i, ["o/u%d.o" % i], ins=[s["outs"][0]])
+                if r.random() < 0.3:
+                    c["restat"] = True
+                sc["stmts"].append(c)
         return sc
 
     @staticmethod
